@@ -113,6 +113,9 @@ def index {α : Type} (xs : List α) (i : Int) : M α :=
   | some v => .ok v
   | none => .error .IndexError
 
+/-- `range(a, b)`: the ints `a, a+1, …, b-1` (empty when `b ≤ a`) -/
+def range (a b : Int) : List Int := (List.range (b - a).toNat).map (fun (k : Nat) => a + (k : Int))
+
 /-- `while cond: body` over the loop state `σ` with a fuel bound (structural recursion): when the fuel runs out while the condition still holds
     the result is `Unsupported` — a tie theorem about a translated loop states how much fuel suffices -/
 def whileFuel {σ : Type} (cond : σ → M Bool) (body : σ → M σ) : Nat → σ → M σ
